@@ -809,7 +809,7 @@ Proof.
 Qed.
 
 (* ------------------------------------------------------------------ allocation inside a destructor *)
-Notation finF := (finalise mrule true true true).
+Notation finF := (finalise mrule true true true nopro).
 Notation childF := (alloc_child mrule true true).
 
 Lemma phi_add_obj s c k b : fin_count s c = 0 -> phi (add_obj c k b s) = S (length (spawns s c)) + phi s.
@@ -1007,7 +1007,7 @@ Proof.
 Qed.
 
 (* the finaliser the events use computes its fuel from the state: good at every bound *)
-Notation finT := (fin_top mrule true true true).
+Notation finT := (fin_top mrule true true true nopro).
 Lemma fin_top_ok n : FinOK finT n.
 Proof.
   intros A s o G Hr Hp Hf Hi _. unfold fin_top.
@@ -1016,9 +1016,9 @@ Qed.
 
 
 (* ------------------------------------------------------------------ whole histories *)
-Notation stepF := (step mrule true true true).
-Notation runF := (run mrule true true true).
-Notation step1F := (step1 mrule true true true).
+Notation stepF := (step mrule true true true nopro).
+Notation runF := (run mrule true true true nopro).
+Notation step1F := (step1 mrule true true true nopro).
 Notation sweepT := (sweep mrule true finT).
 
 Record SInv (s : st) : Prop := {
@@ -1425,7 +1425,7 @@ Lemma run_snoc h e : runF (h ++ [e]) = stepF (runF h) e.
 Proof. unfold run. rewrite fold_left_app. reflexivity. Qed.
 
 Lemma all_from_snoc c h e s :
-  all_from mrule true true true c s (h ++ [e]) = all_from mrule true true true c s h && c (fold_left stepF h s) e.
+  all_from mrule true true true nopro c s (h ++ [e]) = all_from mrule true true true nopro c s h && c (fold_left stepF h s) e.
 Proof.
   revert s. induction h as [|a h IH]; intros s; simpl.
   - rewrite andb_true_r. reflexivity.
@@ -1439,7 +1439,7 @@ Proof.
   - rewrite run_snoc. apply step_ok. exact IH.
 Qed.
 
-Lemma run_regall h : no_alloc_in_stop_window mrule true true true h = true -> RegAll (runF h).
+Lemma run_regall h : no_alloc_in_stop_window mrule true true true nopro h = true -> RegAll (runF h).
 Proof.
   induction h as [|e h IH] using rev_ind; intros Hc.
   - apply SInv_init.
@@ -1456,14 +1456,14 @@ Qed.
 
 Lemma all_from_weaken (c1 c2 : st -> ev -> bool) :
   (forall s e, c1 s e = true -> c2 s e = true) ->
-  forall h s, all_from mrule true true true c1 s h = true -> all_from mrule true true true c2 s h = true.
+  forall h s, all_from mrule true true true nopro c1 s h = true -> all_from mrule true true true nopro c2 s h = true.
 Proof.
   intros Hc. induction h as [|e h IH]; intros s H; simpl in *; auto.
   apply andb_true_iff in H. destruct H as [H1 H2]. rewrite (Hc _ _ H1). simpl. apply IH. exact H2.
 Qed.
 
 Lemma stop_clean_alloc_clean h :
-  no_alloc_or_del_in_stop_window mrule true true true h = true -> no_alloc_in_stop_window mrule true true true h = true.
+  no_alloc_or_del_in_stop_window mrule true true true nopro h = true -> no_alloc_in_stop_window mrule true true true nopro h = true.
 Proof. apply all_from_weaken. apply stop_ok_alloc_ok. Qed.
 
 (* ------------------------------------------------------------------ the theorems *)
@@ -1490,7 +1490,7 @@ Qed.
 
 (* T2: an explicit del / del_root (collector running) or del_raw finalises the object, once, now *)
 Theorem explicit_delete_finalises h k o :
-  no_alloc_in_stop_window mrule true true true h = true ->
+  no_alloc_in_stop_window mrule true true true nopro h = true ->
   torn (runF h) = false -> live (runF h) o = true -> kind_of (runF h) o = Some k ->
   (k = KRaw \/ running (runF h) = true) ->
   done (runF (h ++ [EDel k o])) o.
@@ -1523,7 +1523,7 @@ Qed.
 (* T3: teardown (thread exit, Cello_Exit) leaves no managed object behind: each one has been
    finalised exactly once, by a collection, a del, an owning Box, or now *)
 Theorem teardown_complete h order x b :
-  no_alloc_in_stop_window mrule true true true h = true ->
+  no_alloc_in_stop_window mrule true true true nopro h = true ->
   torn (runF h) = false -> info (runF h) x = Some (KManaged, b) ->
   done (runF (h ++ [ETeardown order])) x.
 Proof.
@@ -1563,24 +1563,24 @@ Qed.
    reverted repair fails at once on `false = true` instead of sending the kernel into a long
    conversion) *)
 Lemma finalised_at_most_once_sw r w d : r = true -> w = true -> d = true -> forall h x,
-  fin_count (run mrule r w d h) x <= 1 /\ free_count (run mrule r w d h) x = fin_count (run mrule r w d h) x.
+  fin_count (run mrule r w d nopro h) x <= 1 /\ free_count (run mrule r w d nopro h) x = fin_count (run mrule r w d nopro h) x.
 Proof. intros -> -> ->. exact finalised_at_most_once. Qed.
 
 Lemma fuel_adequate_sw r w d : r = true -> w = true -> d = true -> forall h,
-  oof (run mrule r w d h) = false /\ pend (run mrule r w d h) = [].
+  oof (run mrule r w d nopro h) = false /\ pend (run mrule r w d nopro h) = [].
 Proof. intros -> -> ->. exact fuel_adequate. Qed.
 
 Lemma explicit_delete_finalises_sw r w d : r = true -> w = true -> d = true -> forall h k o,
-  no_alloc_in_stop_window mrule r w d h = true ->
-  torn (run mrule r w d h) = false -> live (run mrule r w d h) o = true -> kind_of (run mrule r w d h) o = Some k ->
-  (k = KRaw \/ running (run mrule r w d h) = true) ->
-  fin_count (run mrule r w d (h ++ [EDel k o])) o = 1 /\ free_count (run mrule r w d (h ++ [EDel k o])) o = 1.
+  no_alloc_in_stop_window mrule r w d nopro h = true ->
+  torn (run mrule r w d nopro h) = false -> live (run mrule r w d nopro h) o = true -> kind_of (run mrule r w d nopro h) o = Some k ->
+  (k = KRaw \/ running (run mrule r w d nopro h) = true) ->
+  fin_count (run mrule r w d nopro (h ++ [EDel k o])) o = 1 /\ free_count (run mrule r w d nopro (h ++ [EDel k o])) o = 1.
 Proof. intros -> -> ->. exact explicit_delete_finalises. Qed.
 
 Lemma teardown_complete_sw r w d : r = true -> w = true -> d = true -> forall h order x b,
-  no_alloc_in_stop_window mrule r w d h = true ->
-  torn (run mrule r w d h) = false -> info (run mrule r w d h) x = Some (KManaged, b) ->
-  fin_count (run mrule r w d (h ++ [ETeardown order])) x = 1 /\ free_count (run mrule r w d (h ++ [ETeardown order])) x = 1.
+  no_alloc_in_stop_window mrule r w d nopro h = true ->
+  torn (run mrule r w d nopro h) = false -> info (run mrule r w d nopro h) x = Some (KManaged, b) ->
+  fin_count (run mrule r w d nopro (h ++ [ETeardown order])) x = 1 /\ free_count (run mrule r w d nopro (h ++ [ETeardown order])) x = 1.
 Proof. intros -> -> ->. exact teardown_complete. Qed.
 
 (* ------------------------------------------------------------------ through an owning Box *)
@@ -1603,7 +1603,7 @@ Qed.
    del_root / del_raw of o finalises, exactly once and at once, every object reachable from o
    through ownership of registered objects *)
 Theorem delete_reaches_owned h k o x :
-  no_alloc_in_stop_window mrule true true true h = true ->
+  no_alloc_in_stop_window mrule true true true nopro h = true ->
   torn (runF h) = false -> live (runF h) o = true -> kind_of (runF h) o = Some k ->
   running (runF h) = true -> Reach (runF h) o x ->
   done (runF (h ++ [EDel k o])) x.
@@ -1635,10 +1635,10 @@ Proof.
 Qed.
 
 Lemma delete_reaches_owned_sw r w d : r = true -> w = true -> d = true -> forall h k o x,
-  no_alloc_in_stop_window mrule r w d h = true ->
-  torn (run mrule r w d h) = false -> live (run mrule r w d h) o = true -> kind_of (run mrule r w d h) o = Some k ->
-  running (run mrule r w d h) = true -> Reach (run mrule r w d h) o x ->
-  fin_count (run mrule r w d (h ++ [EDel k o])) x = 1 /\ free_count (run mrule r w d (h ++ [EDel k o])) x = 1.
+  no_alloc_in_stop_window mrule r w d nopro h = true ->
+  torn (run mrule r w d nopro h) = false -> live (run mrule r w d nopro h) o = true -> kind_of (run mrule r w d nopro h) o = Some k ->
+  running (run mrule r w d nopro h) = true -> Reach (run mrule r w d nopro h) o x ->
+  fin_count (run mrule r w d nopro (h ++ [EDel k o])) x = 1 /\ free_count (run mrule r w d nopro (h ++ [EDel k o])) x = 1.
 Proof. intros -> -> ->. exact delete_reaches_owned. Qed.
 
 
@@ -1662,10 +1662,10 @@ Proof.
 Qed.
 
 Lemma collect_reaches_owned_sw r w d : r = true -> w = true -> d = true -> forall h order marks b x,
-  torn (run mrule r w d h) = false -> running (run mrule r w d h) = true ->
-  In b (map fst (reg (run mrule r w d h))) -> is_root (run mrule r w d h) b = false -> ~ In b marks ->
-  Reach (run mrule r w d h) b x ->
-  fin_count (run mrule r w d (h ++ [ECollect order marks])) x = 1 /\ free_count (run mrule r w d (h ++ [ECollect order marks])) x = 1.
+  torn (run mrule r w d nopro h) = false -> running (run mrule r w d nopro h) = true ->
+  In b (map fst (reg (run mrule r w d nopro h))) -> is_root (run mrule r w d nopro h) b = false -> ~ In b marks ->
+  Reach (run mrule r w d nopro h) b x ->
+  fin_count (run mrule r w d nopro (h ++ [ECollect order marks])) x = 1 /\ free_count (run mrule r w d nopro (h ++ [ECollect order marks])) x = 1.
 Proof. intros -> -> ->. exact collect_reaches_owned. Qed.
 
 (* ------------------------------------------------------------------ the machine refines the specification *)
@@ -1802,17 +1802,17 @@ Proof.
   apply IH. apply bad_alloc_child; assumption.
 Qed.
 
-Lemma bad_finalise r w d f : BM (finalise mrule r w d f).
+Lemma bad_finalise r w d f : BM (finalise mrule r w d nopro f).
 Proof.
   induction f as [|f IH]; intros s o Hb; cbn [finalise]; [exact Hb|].
   cbn [bad add_log].
-  assert (H1 : bad (fold_left (alloc_child mrule w d (finalise mrule r w d f)) (spawns (add_log (LFin o) s) o) (add_log (LFin o) s)) = true)
+  assert (H1 : bad (fold_left (alloc_child mrule w d (finalise mrule r w d nopro f)) (spawns (add_log (LFin o) s) o) (add_log (LFin o) s)) = true)
     by (apply bad_children; [exact IH | exact Hb]).
   match goal with |- bad (match ?x with Some _ => _ | None => _ end) = true => destruct x end; [|exact H1].
   cbn [bad set_owned]. apply bad_gc_rem; [exact IH | exact H1].
 Qed.
 
-Lemma bad_fin_top r w d : BM (fin_top mrule r w d).
+Lemma bad_fin_top r w d : BM (fin_top mrule r w d nopro).
 Proof. intros s o Hb. unfold fin_top. apply bad_finalise. exact Hb. Qed.
 
 Lemma step_bad_mono s e : bad s = true -> bad (stepF s e) = true.
@@ -1940,7 +1940,7 @@ Qed.
    neither the machine nor the specification flags a misuse and whose stop windows are clean, every
    object the specification demands to be finalised by now has been finalised exactly once *)
 Theorem refines_spec_sim h :
-  bad (runF h) = false -> s_bad (sp_run h) = false -> no_alloc_or_del_in_stop_window mrule true true true h = true ->
+  bad (runF h) = false -> s_bad (sp_run h) = false -> no_alloc_or_del_in_stop_window mrule true true true nopro h = true ->
   Sim (sp_run h) (runF h) /\ dangling (runF h) = false.
 Proof.
   induction h as [|e h IH] using rev_ind; intros Hbad Hsb Hclean.
@@ -2079,13 +2079,13 @@ Proof.
 Qed.
 
 Theorem refines_spec h x :
-  bad (runF h) = false -> s_bad (sp_run h) = false -> no_alloc_or_del_in_stop_window mrule true true true h = true ->
+  bad (runF h) = false -> s_bad (sp_run h) = false -> no_alloc_or_del_in_stop_window mrule true true true nopro h = true ->
   In x (s_must (sp_run h)) -> fin_count (runF h) x = 1 /\ free_count (runF h) x = 1.
 Proof. intros Hb Hs Hc Hx. destruct (refines_spec_sim h Hb Hs Hc) as [M _]. exact (sm_must _ _ M x Hx). Qed.
 
 Lemma refines_spec_sw r w d : r = true -> w = true -> d = true -> forall h x,
-  bad (run mrule r w d h) = false -> s_bad (sp_run h) = false -> no_alloc_or_del_in_stop_window mrule r w d h = true ->
-  In x (s_must (sp_run h)) -> fin_count (run mrule r w d h) x = 1 /\ free_count (run mrule r w d h) x = 1.
+  bad (run mrule r w d nopro h) = false -> s_bad (sp_run h) = false -> no_alloc_or_del_in_stop_window mrule r w d nopro h = true ->
+  In x (s_must (sp_run h)) -> fin_count (run mrule r w d nopro h) x = 1 /\ free_count (run mrule r w d nopro h) x = 1.
 Proof. intros -> -> ->. exact refines_spec. Qed.
 
 
@@ -2175,10 +2175,10 @@ Qed.
    Exception_Error leaving only through exit(): EVERY termination route runs the teardown, once —
    every managed object allocated before has been finalised exactly once when the process is gone *)
 Theorem terminate_complete r h order x b :
-  no_alloc_in_stop_window mrule true true true h = true ->
+  no_alloc_in_stop_window mrule true true true nopro h = true ->
   torn (runF h) = false -> info (runF h) x = Some (KManaged, b) ->
-  done (terminate mrule true true true true false true r order (runF h)) x /\
-  torn (terminate mrule true true true true false true r order (runF h)) = true.
+  done (terminate mrule true true true nopro true false true r order (runF h)) x /\
+  torn (terminate mrule true true true nopro true false true r order (runF h)) = true.
 Proof.
   intros Hc Ht Hi. unfold terminate. rewrite andb_false_r. simpl andb. cbv iota.
   split; [|apply torn_after_teardown; exact Ht].
@@ -2186,8 +2186,8 @@ Proof.
 Qed.
 
 Theorem terminate_at_most_once ra ca ee r h order x :
-  fin_count (terminate mrule true true true ra ca ee r order (runF h)) x <= 1 /\
-  free_count (terminate mrule true true true ra ca ee r order (runF h)) x = fin_count (terminate mrule true true true ra ca ee r order (runF h)) x.
+  fin_count (terminate mrule true true true nopro ra ca ee r order (runF h)) x <= 1 /\
+  free_count (terminate mrule true true true nopro ra ca ee r order (runF h)) x = fin_count (terminate mrule true true true nopro ra ca ee r order (runF h)) x.
 Proof.
   unfold terminate.
   assert (H1 : forall h', fin_count (runF h') x <= 1 /\ free_count (runF h') x = fin_count (runF h') x)
@@ -2198,18 +2198,18 @@ Qed.
 
 Lemma terminate_complete_sw r1 w d ra ca ee : r1 = true -> w = true -> d = true -> ra = true -> ca = false -> ee = true ->
   forall r h order x b,
-  no_alloc_in_stop_window mrule r1 w d h = true ->
-  torn (run mrule r1 w d h) = false -> info (run mrule r1 w d h) x = Some (KManaged, b) ->
-  (fin_count (terminate mrule r1 w d ra ca ee r order (run mrule r1 w d h)) x = 1 /\
-   free_count (terminate mrule r1 w d ra ca ee r order (run mrule r1 w d h)) x = 1) /\
-  torn (terminate mrule r1 w d ra ca ee r order (run mrule r1 w d h)) = true.
+  no_alloc_in_stop_window mrule r1 w d nopro h = true ->
+  torn (run mrule r1 w d nopro h) = false -> info (run mrule r1 w d nopro h) x = Some (KManaged, b) ->
+  (fin_count (terminate mrule r1 w d nopro ra ca ee r order (run mrule r1 w d nopro h)) x = 1 /\
+   free_count (terminate mrule r1 w d nopro ra ca ee r order (run mrule r1 w d nopro h)) x = 1) /\
+  torn (terminate mrule r1 w d nopro ra ca ee r order (run mrule r1 w d nopro h)) = true.
 Proof. intros -> -> -> -> -> ->. exact terminate_complete. Qed.
 
 End Rule.
 
 (* ------------------------------------------------------------------ refutations and non-vacuity
    (computed with the threshold rule of the pinned tree, Lifecycle.mitems_rule) *)
-Notation runF := (run mitems_rule true true true).
+Notation runF := (run mitems_rule true true true nopro).
 
 (* D18: the pinned GC_Rem_Ptr only clears the pending entry.  Box 1 owns object 2, both become
    unreachable, the sweep meets the Box first: object 2 is never finalised, not even at teardown. *)
@@ -2217,8 +2217,8 @@ Definition d18_history : list ev :=
   [ENew KManaged true 1 [] []; ENew KManaged false 2 [] [1]; ELink 1 (Some 2); ECollect [1; 2] []; ETeardown []].
 
 Theorem lifecycle_d18_refuted_pinned :
-  let s := run mitems_rule false false true d18_history in
-  no_alloc_or_del_in_stop_window mitems_rule false false true d18_history = true /\ bad s = false /\ torn s = true /\
+  let s := run mitems_rule false false true nopro d18_history in
+  no_alloc_or_del_in_stop_window mitems_rule false false true nopro d18_history = true /\ bad s = false /\ torn s = true /\
   info s 2 = Some (KManaged, false) /\ fin_count s 2 = 0 /\ free_count s 2 = 0.
 Proof. vm_compute. repeat split; reflexivity. Qed.
 
@@ -2232,7 +2232,7 @@ Proof. vm_compute. repeat split; reflexivity. Qed.
 Definition selfbox_history : list ev := [ENew KManaged true 1 [] []; ELink 1 (Some 1); ECollect [] []].
 
 Theorem lifecycle_sweep_order_refuted_half_repair :
-  let s := run mitems_rule true false true selfbox_history in bad s = false /\ fin_count s 1 = 2 /\ free_count s 1 = 2.
+  let s := run mitems_rule true false true nopro selfbox_history in bad s = false /\ fin_count s 1 = 2 /\ free_count s 1 = 2.
 Proof. vm_compute. repeat split; reflexivity. Qed.
 
 Example selfbox_history_repaired :
@@ -2247,8 +2247,8 @@ Definition d22_history : list ev :=
   [ENew KManaged false 1 [] []; ESpawn 1 [10; 11]; ENew KManaged false 3 [] [1]; ESpawn 3 [12; 13]; ETeardown [3; 1]].
 
 Theorem lifecycle_d22_refuted_pinned :
-  let s := run mitems_rule true true false d22_history in
-  no_alloc_or_del_in_stop_window mitems_rule true true false d22_history = true /\ bad s = false /\ torn s = true /\
+  let s := run mitems_rule true true false nopro d22_history in
+  no_alloc_or_del_in_stop_window mitems_rule true true false nopro d22_history = true /\ bad s = false /\ torn s = true /\
   info s 1 = Some (KManaged, false) /\ fin_count s 1 = 0 /\ free_count s 1 = 0.
 Proof. vm_compute. repeat split; reflexivity. Qed.
 
@@ -2263,7 +2263,7 @@ Definition stop_window_history : list ev :=
 
 Theorem lifecycle_stop_window_refuted :
   let s := runF stop_window_history in
-  no_alloc_in_stop_window mitems_rule true true true stop_window_history = false /\ bad s = false /\ torn s = true /\
+  no_alloc_in_stop_window mitems_rule true true true nopro stop_window_history = false /\ bad s = false /\ torn s = true /\
   info s 1 = Some (KManaged, false) /\ fin_count s 1 = 0.
 Proof. vm_compute. repeat split; reflexivity. Qed.
 
@@ -2278,8 +2278,8 @@ Definition sample_history : list ev :=
 
 Example sample_history_ok :
   let s := runF sample_history in
-  no_alloc_or_del_in_stop_window mitems_rule true true true sample_history = true /\
-  no_alloc_in_stop_window mitems_rule true true true sample_history = true /\
+  no_alloc_or_del_in_stop_window mitems_rule true true true nopro sample_history = true /\
+  no_alloc_in_stop_window mitems_rule true true true nopro sample_history = true /\
   torn s = false /\ bad s = false /\ running s = true /\
   live s 1 = true /\ kind_of s 1 = Some KManaged /\ info s 6 = Some (KManaged, false) /\
   live s 3 = true /\ kind_of s 3 = Some KRoot /\ fin_count s 7 = 1 /\ fin_count s 8 = 1.
@@ -2304,7 +2304,7 @@ Definition alloc_history : list ev :=
 
 Example alloc_history_ok :
   let s := runF alloc_history in
-  no_alloc_or_del_in_stop_window mitems_rule true true true alloc_history = true /\ bad s = false /\ torn s = false /\
+  no_alloc_or_del_in_stop_window mitems_rule true true true nopro alloc_history = true /\ bad s = false /\ torn s = false /\
   fin_count s 1 = 1 /\ fin_count s 2 = 1 /\
   info s 10 = Some (KManaged, false) /\ info s 11 = Some (KManaged, false) /\
   fin_count (runF (alloc_history ++ [ETeardown []])) 11 = 1.
@@ -2315,27 +2315,127 @@ Proof. vm_compute. repeat split; reflexivity. Qed.
 Definition exit_history : list ev := [ENew KManaged false 1 [] []; ENew KManaged true 2 [] [1]; ELink 2 (Some 1)].
 
 Theorem terminate_refuted_without_atexit :
-  let s := terminate mitems_rule true true true false true true RExit [] (runF exit_history) in
-  no_alloc_in_stop_window mitems_rule true true true exit_history = true /\ bad s = false /\ torn s = false /\
+  let s := terminate mitems_rule true true true nopro false true true RExit [] (runF exit_history) in
+  no_alloc_in_stop_window mitems_rule true true true nopro exit_history = true /\ bad s = false /\ torn s = false /\
   info s 1 = Some (KManaged, false) /\ fin_count s 1 = 0 /\ fin_count s 2 = 0 /\
-  fin_count (terminate mitems_rule true true true false true true RThrow [] (runF exit_history)) 1 = 0 /\
-  fin_count (terminate mitems_rule true true true false true true RReturn [] (runF exit_history)) 1 = 1.
+  fin_count (terminate mitems_rule true true true nopro false true true RThrow [] (runF exit_history)) 1 = 0 /\
+  fin_count (terminate mitems_rule true true true nopro false true true RReturn [] (runF exit_history)) 1 = 1.
 Proof. vm_compute. repeat split; reflexivity. Qed.
 
 (* an Exception_Error with a path that avoids exit() (_Exit, abort, ...): an uncaught exception —
    e.g. a signal turned into an exception, or any throw after one — leaves the objects behind;
    the routes that do not go through Exception_Error are fine *)
 Theorem terminate_refuted_error_without_exit :
-  let s := terminate mitems_rule true true true true false false RSigUncaught [] (runF exit_history) in
+  let s := terminate mitems_rule true true true nopro true false false RSigUncaught [] (runF exit_history) in
   bad s = false /\ torn s = false /\ info s 1 = Some (KManaged, false) /\ fin_count s 1 = 0 /\ fin_count s 2 = 0 /\
-  fin_count (terminate mitems_rule true true true true false false RSigCaughtThrow [] (runF exit_history)) 1 = 0 /\
-  fin_count (terminate mitems_rule true true true true false false RSigCaughtReturn [] (runF exit_history)) 1 = 1 /\
-  fin_count (terminate mitems_rule true true true true false false RSigCaughtExit [] (runF exit_history)) 1 = 1.
+  fin_count (terminate mitems_rule true true true nopro true false false RSigCaughtThrow [] (runF exit_history)) 1 = 0 /\
+  fin_count (terminate mitems_rule true true true nopro true false false RSigCaughtReturn [] (runF exit_history)) 1 = 1 /\
+  fin_count (terminate mitems_rule true true true nopro true false false RSigCaughtExit [] (runF exit_history)) 1 = 1.
 Proof. vm_compute. repeat split; reflexivity. Qed.
 
 Example exit_history_ok :
-  no_alloc_in_stop_window mitems_rule true true true exit_history = true /\ torn (runF exit_history) = false /\
+  no_alloc_in_stop_window mitems_rule true true true nopro exit_history = true /\ torn (runF exit_history) = false /\
   info (runF exit_history) 1 = Some (KManaged, false) /\
-  fin_count (terminate mitems_rule true true true true false true RExit [] (runF exit_history)) 2 = 1 /\
-  fin_count (terminate mitems_rule true true true true false true RSigUncaught [] (runF exit_history)) 2 = 1.
+  fin_count (terminate mitems_rule true true true nopro true false true RExit [] (runF exit_history)) 2 = 1 /\
+  fin_count (terminate mitems_rule true true true nopro true false true RSigUncaught [] (runF exit_history)) 2 = 1.
 Proof. vm_compute. repeat split; reflexivity. Qed.
+
+(* ------------------------------------------------------------------------------------------------
+   Destructors that open a stop/start window of their own (wave 3, seeded C06-r7-2).
+   GC_Stop / GC_Start only touch gc->running (switch `keep` = true): the window is invisible to the
+   machine — in particular a window opened inside a running sweep leaves that sweep's pending list
+   alone — so the machine with windows IS the machine without, and every theorem carries over. *)
+Lemma window_keep_id s : window true s = s.
+Proof. unfold window, gc_start, gc_stop, set_running. destruct s as [a b run c e f g h i j k l m]; simpl. destruct run; reflexivity. Qed.
+
+Lemma dwin_keep_id win s o : dwin win true s o = s.
+Proof. unfold dwin. destruct (win o); [apply window_keep_id|reflexivity]. Qed.
+
+(* the statement asked for: whatever the state of the sweep in progress, its pending list, the
+   registry, the running flag and the ledger are what they were when the window closes *)
+Theorem window_in_sweep_leaves_pending s :
+  in_sweep s = true ->
+  pend (window true s) = pend s /\ reg (window true s) = reg s /\
+  running (window true s) = running s /\ log (window true s) = log s.
+Proof. intros _. rewrite window_keep_id. repeat split. Qed.
+
+(* a GC_Start that drops the pending list it finds: the list of the calling sweep is gone *)
+Lemma window_drop_empties s : running s = true -> pend (window false s) = [].
+Proof. intros H. unfold window. rewrite H. reflexivity. Qed.
+
+Section ProExt.
+  Variable mrule : nat -> nat.
+  Variables r w d : bool.
+  Variable pro : st -> id -> st.
+  Hypothesis pro_id : forall s o, pro s o = s.
+
+  Definition feq (f g : st -> id -> st) := forall s o, f s o = g s o.
+
+  Lemma gc_rem_ext f g : feq f g -> forall s p, gc_rem mrule r f s p = gc_rem mrule r g s p.
+  Proof.
+    intros H s p. unfold gc_rem. destruct (negb (running s)); [reflexivity|].
+    destruct (in_pend s p).
+    - destruct r; [rewrite H; reflexivity|]. destruct (in_reg _ p); [rewrite H|]; reflexivity.
+    - destruct (in_reg s p); [rewrite H|]; reflexivity.
+  Qed.
+
+  Lemma sweep_loop_ext f g : feq f g -> forall k i s, sweep_loop w f k i s = sweep_loop w g k i s.
+  Proof.
+    intros H k. induction k as [|k IH]; intros i s; simpl; [reflexivity|].
+    destruct (nth i (pend s) None); [rewrite H|]; apply IH.
+  Qed.
+
+  Lemma sweep_ext f g : feq f g -> forall order marks s, sweep mrule w f order marks s = sweep mrule w g order marks s.
+  Proof. intros H order marks s. unfold sweep. rewrite (sweep_loop_ext f g H). reflexivity. Qed.
+
+  Lemma alloc_child_ext f g : feq f g -> forall s c, alloc_child mrule w d f s c = alloc_child mrule w d g s c.
+  Proof.
+    intros H s c. unfold alloc_child. destruct (info s c); [reflexivity|].
+    destruct (negb (running _)); [reflexivity|].
+    destruct (d && in_sweep _); [reflexivity|].
+    destruct (mitems _ <? nitems _); [apply sweep_ext; exact H|reflexivity].
+  Qed.
+
+  Lemma children_ext f g : feq f g -> forall l s,
+    fold_left (alloc_child mrule w d f) l s = fold_left (alloc_child mrule w d g) l s.
+  Proof.
+    intros H l. induction l as [|c l IH]; intros s; simpl; [reflexivity|].
+    rewrite (alloc_child_ext f g H). apply IH.
+  Qed.
+
+  Lemma finalise_ext : forall f, feq (finalise mrule r w d pro f) (finalise mrule r w d nopro f).
+  Proof.
+    induction f as [|f IH]; intros s o; cbn [finalise]; [reflexivity|].
+    rewrite pro_id. rewrite (children_ext _ _ IH).
+    destruct (owned _ o); [rewrite (gc_rem_ext _ _ IH)|]; reflexivity.
+  Qed.
+
+  Lemma fin_top_ext : feq (fin_top mrule r w d pro) (fin_top mrule r w d nopro).
+  Proof. intros s o. unfold fin_top. apply finalise_ext. Qed.
+
+  Lemma step1_ext s e : step1 mrule r w d pro s e = step1 mrule r w d nopro s e.
+  Proof.
+    destruct e; simpl; try reflexivity.
+    - destruct (info s o); [reflexivity|]. destruct k; try reflexivity;
+        (destruct (negb (running _)); [reflexivity|]; destruct (mitems _ <? nitems _); [apply sweep_ext, fin_top_ext|reflexivity]).
+    - destruct (_ && _); [|reflexivity]. destruct k; [apply gc_rem_ext, fin_top_ext..|apply fin_top_ext].
+    - apply sweep_ext, fin_top_ext.
+    - rewrite (sweep_ext _ _ fin_top_ext). reflexivity.
+  Qed.
+
+  Lemma step_ext s e : step mrule r w d pro s e = step mrule r w d nopro s e.
+  Proof. unfold step. rewrite step1_ext. reflexivity. Qed.
+
+  Lemma run_from_ext h : forall s, fold_left (step mrule r w d pro) h s = fold_left (step mrule r w d nopro) h s.
+  Proof. induction h as [|e h IH]; intros s; simpl; [reflexivity|]. rewrite step_ext. apply IH. Qed.
+
+  Lemma run_ext h : run mrule r w d pro h = run mrule r w d nopro h.
+  Proof. unfold run. apply run_from_ext. Qed.
+
+  Lemma terminate_ext ra ca ee rt order s :
+    terminate mrule r w d pro ra ca ee rt order s = terminate mrule r w d nopro ra ca ee rt order s.
+  Proof. unfold terminate. rewrite !step_ext. destruct (ca && returns rt); rewrite ?step_ext; reflexivity. Qed.
+
+  Lemma all_from_ext c h : forall s, all_from mrule r w d pro c s h = all_from mrule r w d nopro c s h.
+  Proof. induction h as [|e h IH]; intros s; simpl; [reflexivity|]. rewrite step_ext, IH. reflexivity. Qed.
+End ProExt.
